@@ -30,6 +30,10 @@ type Profile struct {
 	Cycles      bool // AddInput may close a cycle
 	Inner       int  // share of Observe operations aimed at a node created inside a bind scope (out of 100)
 	Wide        bool // MapN nodes with 65..150 inputs (past the edge index threshold)
+	Sentinels   int  // weight of sentinel operations (Go-only stream)
+	PairWrites  int  // share of mid-pass write plans that write one var twice from one node function (out of 100)
+	AlwaysShare int  // extra share of constructions that are Always nodes (out of 100)
+	Prefix      []Op // operations every history of the stream starts with
 	Bind2       int  // share of binds that are Bind2 (Go-only stream: not modelled in Coq)
 	Memo        int  // share of binds that are BindMemoized (out of 100)
 	WPurge      int  // weight of cache Purge/Clear operations
@@ -51,7 +55,7 @@ type Gen struct {
 func (g *Gen) userNodes() []int {
 	var out []int
 	for id, ref := range g.E.Nodes {
-		if ref != nil && ref.Kind != "BindLhs" && ref.Kind != "Pair" && ref.Scope == -1 {
+		if ref != nil && ref.Kind != "BindLhs" && ref.Kind != "Pair" && ref.Kind != "Sentinel" && ref.Scope == -1 {
 			out = append(out, id)
 		}
 	}
@@ -166,7 +170,7 @@ func (g *Gen) construct() (Op, bool) {
 			ins[i] = g.pick(nodes)
 		}
 		return Op{K: "NewMapN", FN: []string{"Sum", "WSum"}[g.R.Intn(2)], Ins: ins}, true
-	case k < g.P.WBind+g.P.Cutoffs+g.P.MapNShare+4 && g.P.Always:
+	case k < g.P.WBind+g.P.Cutoffs+g.P.MapNShare+4+g.P.AlwaysShare && g.P.Always:
 		return Op{K: "NewAlways", A: g.pickBiased(nodes)}, true
 	case k < 70:
 		a := g.pickBiased(nodes)
@@ -200,7 +204,22 @@ func (g *Gen) plan() []Action {
 	var plan []Action
 	fns, cuts := g.fnNodes()
 	vars := g.kindNodes("Var")
-	if g.R.Intn(100) < g.P.WMidSet && len(fns) > 0 && len(vars) > 0 {
+	if g.R.Intn(100) < g.P.WMidSet && g.R.Intn(100) < g.P.PairWrites && len(fns) > 0 && len(vars) > 0 {
+		// one node function writes the same var twice: away from its value and back to it
+		v := g.pick(vars)
+		if g.P.UnobsWrites || g.E.Registered(v) {
+			cur := g.E.Nodes[v].Inc.Value()
+			at := g.pick(fns)
+			if g.R.Chance(1, 2) {
+				plan = append(plan, Action{Node: at, Which: "WFn", Kind: "ASet", Var: v, X: norm(cur + g.R.Range(1, 5))},
+					Action{Node: at, Which: "WFn", Kind: "ASet", Var: v, X: cur})
+			} else {
+				d := g.R.Range(1, 5)
+				plan = append(plan, Action{Node: at, Which: "WFn", Kind: "AUpdate", Var: v, X: d},
+					Action{Node: at, Which: "WFn", Kind: "AUpdate", Var: v, X: Modulus - d})
+			}
+		}
+	} else if g.R.Intn(100) < g.P.WMidSet && len(fns) > 0 && len(vars) > 0 {
 		n := g.R.Range(1, 2)
 		for i := 0; i < n; i++ {
 			v := g.pick(vars)
@@ -220,7 +239,19 @@ func (g *Gen) plan() []Action {
 		if g.R.Chance(1, 3) {
 			kind = "AFailPanic"
 		}
-		if len(cuts) > 0 && g.R.Chance(1, 5) {
+		var underAlways []int
+		if g.P.AlwaysShare > 0 {
+			for _, id := range fns {
+				for _, d := range g.E.Nodes[id].Decl {
+					if g.E.Nodes[d] != nil && g.E.Nodes[d].Kind == "Always" {
+						underAlways = append(underAlways, id)
+					}
+				}
+			}
+		}
+		if len(underAlways) > 0 && g.R.Chance(2, 3) {
+			plan = append(plan, Action{Node: g.pick(underAlways), Which: "WFn", Kind: kind})
+		} else if len(cuts) > 0 && g.R.Chance(1, 5) {
 			plan = append(plan, Action{Node: g.pick(cuts), Which: "WCut", Kind: kind})
 		} else if len(fns) > 0 {
 			plan = append(plan, Action{Node: g.pick(fns), Which: "WFn", Kind: kind})
@@ -234,6 +265,23 @@ func (g *Gen) Next() Op {
 	p := g.P
 	total := p.WNew + p.WObserve + p.WUnobserve + p.WSet + p.WStabilize + p.WAddRemove
 	for tries := 0; tries < 50; tries++ {
+		if p.Sentinels > 0 && g.R.Intn(total+p.Sentinels) >= total {
+			var sents []int
+			for id, ref := range g.E.Nodes {
+				if ref != nil && ref.Kind == "Sentinel" && ref.Watched >= 0 {
+					sents = append(sents, id)
+				}
+			}
+			nodes := g.userNodes()
+			switch k := g.R.Intn(10); {
+			case (k < 3 || len(sents) == 0) && len(nodes) > 0:
+				return Op{K: "NewSentinel", A: g.pickBiased(nodes)}
+			case k < 9 && len(sents) > 0:
+				return Op{K: "FireSentinel", A: g.pick(sents)}
+			case len(sents) > 0:
+				return Op{K: "Unwatch", A: g.pick(sents)}
+			}
+		}
 		if p.WPurge > 0 && g.R.Intn(total+p.WPurge) >= total {
 			var memos []int
 			for id, ref := range g.E.Nodes {
@@ -337,7 +385,12 @@ func RunRandom(r *hx.Rand, p Profile) (*Exec, *Monitor) {
 	m := NewMonitor(e)
 	g := &Gen{R: r, P: p, E: e}
 	for i := 0; i < p.Ops; i++ {
-		op := g.Next()
+		var op Op
+		if i < len(p.Prefix) {
+			op = p.Prefix[i]
+		} else {
+			op = g.Next()
+		}
 		m.BeforeOp(op)
 		s := e.Do(op)
 		m.AfterOp(op, s)
